@@ -99,7 +99,7 @@ def record_pipeline(b, world, intended, *, inner_fraction, ms=(0,), ks=(), radiu
     """Run the pipeline on the real code; returns list of records (dicts) for TraceSites."""
     recs = []
     want = want or {'Hist', 'Events', 'Prev', 'Next', 'Jumps', 'Mono', 'Matrix', 'Counter', 'Edges', 'Occ',
-                    'AtomLoc', 'OccType', 'JumpDiff', 'Split', 'Rates', 'TrajSplit'}
+                    'AtomLoc', 'OccType', 'EdgeCounts', 'JumpDiff', 'Split', 'Rates', 'TrajSplit'}
 
     def add(act, **kw):
         if act in want:
@@ -150,6 +150,17 @@ def record_pipeline(b, world, intended, *, inner_fraction, ms=(0,), ks=(), radiu
         if 'Edges' in want:
             g = j.to_graph()
             add('Edges', m=m, edges=[[int(u), int(v)] for u, v in g.edges])
+            # beyond C05: the activation energy on an edge encodes the jump count (alpha inverts the formula with scipy constants)
+            from scipy.constants import Boltzmann, elementary_charge
+            import math
+            nu = float(traj.filter(floating).metrics().attempt_frequency()[0])
+            kT = Boltzmann * traj.metadata['temperature']
+            occ = [site.species.num_atoms for site in tr.occupancy()] if 'Occ' in want or True else None
+            ec = []
+            for u, v, dct in g.edges(data=True):
+                n_rec = math.exp(-dct['e_act'] * elementary_charge / kT) * nu * occ[u] * (T * traj.time_step)
+                ec.append([int(u), int(v), to_int(n_rec, 1.0, tol=1e-6)])
+            add('EdgeCounts', m=m, counts=ec)
         if 'JumpDiff' in want:
             d = 3
             val = float(j.jump_diffusivity(d))
